@@ -7,6 +7,12 @@ package codex
 //
 // HandleSize needs a *tubes.Reliable and a pty file; its reader, readSize, is
 // exercised directly.
+//
+// Every input is handed to the decoder twice: in one piece, and delivered
+// according to a generated pattern (wire.Delivery: one byte at a time, drawn
+// chunk sizes, (0, nil) results, end-of-stream reported with the last bytes);
+// the same oracles hold under every delivery. Enumerations derive the pattern
+// from the input bytes (wire.DeliveryFor).
 
 import (
 	"encoding/binary"
@@ -102,7 +108,7 @@ func c11dExecRun(c c11dExec, v *vlib.Verdict) {
 		v.Label("cmd-length>=1MiB")
 	}
 	var err error
-	wire.DecoderCall(v, "codex.GetCmd", in, func(st *wire.Stream) { _, _, _, _, err = GetCmd(&wire.Conn{Stream: st}) })
+	wire.DecoderCallBoth(v, "codex.GetCmd", in, c.Base.Dlv, func(st *wire.Stream) { _, _, _, _, err = GetCmd(&wire.Conn{Stream: st}) })
 	if v.OK() {
 		v.Label(map[bool]string{true: "returned-value", false: "returned-error"}[err == nil])
 	}
@@ -113,6 +119,7 @@ func c11dExecGen(t *rapid.T) c11dExec {
 	if rapid.IntRange(0, 3).Draw(t, "raw") == 0 {
 		c.Raw = rapid.SampledFrom([]int{0, 1, 2, 4, 5, 6, 8, 9, 10, 13, 17, 64, 300}).Draw(t, "rawlen")
 		c.Base.CmdSeed = rapid.Uint64().Draw(t, "seed")
+		c.Base.Dlv = wire.DrawDelivery(t)
 		return c
 	}
 	c.Base = c18ExecGen(t)
@@ -174,7 +181,7 @@ func c11dExecSweepRun(c c11dExecSweep, v *vlib.Verdict) {
 	shape := c11dExecShape(in)
 	v.Label(shape)
 	v.NonTrivial = shape != "consistent"
-	wire.DecoderCall(v, "codex.GetCmd", in, func(st *wire.Stream) { GetCmd(&wire.Conn{Stream: st}) })
+	wire.DecoderCallBoth(v, "codex.GetCmd", in, wire.DeliveryFor(wire.Hash64(in)), func(st *wire.Stream) { GetCmd(&wire.Conn{Stream: st}) })
 }
 
 func TestVerifC11DecGetCmdSweep(t *testing.T) {
@@ -222,7 +229,7 @@ func c11dSizeRun(c c11dSize, v *vlib.Verdict) {
 	v.Labelf("len%%8=%d", c.Len%8)
 	var sz *pty.Winsize
 	var err error
-	wire.DecoderCall(v, "codex.readSize", in, func(st *wire.Stream) {
+	wire.DecoderCallBoth(v, "codex.readSize", in, wire.DeliveryFor(c.Seed), func(st *wire.Stream) {
 		// as HandleSize does: keep reading sizes until the reader reports an error
 		for k := 0; k < 100; k++ {
 			if sz, err = readSize(st); err != nil {
